@@ -59,6 +59,14 @@ def configs(tier, seed):
             if p <= 2:
                 # two elevations and an insertion afterwards: a degree drop of 2 is removable while an interior knot has lower multiplicity
                 hists.append(("elev", "elev", "ins_new") if (i + seed) % 2 or len(pat) == 2 else ("elev", "elev", "ins_old"))
+        if p == 0:
+            hists = [h for h in itertools.product(HIST_OPS, repeat=1)] + [("ins_new", "elev"), ("elev", "ins_new"), ("ins_new", "ins_new2")]
+            hists = [h for h in hists if not (len(pat) == 2 and "ins_old" in h)]
+            for h in hists:
+                for order in ORDERS:
+                    cfgs.append(dict(name=f"minimal p={p} mults={pat} hist={'+'.join(h)} then {'+'.join(order)}", kind="minimal",
+                                     hist=list(h), order=list(order), **base))
+            continue
         for k, h in enumerate(hists):
             order = ORDERS[(i + k + seed) % len(ORDERS)] if len(h) < 3 or tier != "quick" else ("degree_clean", "knot_clean")
             cfgs.append(dict(name=f"minimal p={p} mults={pat} hist={'+'.join(h)} then {'+'.join(order)}", kind="minimal", hist=list(h),
@@ -115,7 +123,7 @@ def body(env, cfg):
         for k, op in enumerate(cfg["hist"]):
             if op == "ins_new":
                 z = mid[k % len(mid)]
-                if list(c.knotvector).count(z) < c.degree:
+                if list(c.knotvector).count(z) < max(c.degree, 1):   # (a degree-0 curve takes a simple knot)
                     c.knot_insert([z])
             elif op == "ins_new2":
                 z = (2 * vals[0] + vals[-1]) / 3
